@@ -74,7 +74,13 @@ class BitWriter(object):
         func = getattr(self, 'write_' + data_type)
         if data_type == 'bytes':
             return func(value, nbits // NBITS_PER_BYTE)
-        elif data_type in ('bool', 'bin'):
+        elif data_type == 'bin':
+            # A field of fixed width takes exactly that many binary digits
+            # (a width of zero stands for a field of variable length)
+            if nbits and len(value) != nbits:
+                raise ValueError('binary string {!r} does not have the {} digits of the field'.format(value, nbits))
+            return func(value)
+        elif data_type == 'bool':
             return func(value)
         else:
             return func(value, nbits)
@@ -155,7 +161,8 @@ class BitStringBitReader(BitReader):
         return self._bit_stream_read('bin:{}'.format(nbits))
 
     def read_int(self, nbits):
-        return (-1 if self.read_bool() else 1) * self.read_uint(nbits - 1)
+        # A field of a single bit has the sign only, its magnitude is zero
+        return (-1 if self.read_bool() else 1) * (self.read_uint(nbits - 1) if nbits > 1 else 0)
 
 
 class BitStringBitWriter(BitWriter):
@@ -207,8 +214,13 @@ class BitStringBitWriter(BitWriter):
 
     def write_int(self, value, nbits):
         value = int(value)
+        # One bit for the sign, the others for the magnitude. Refuse a magnitude
+        # that does not fit before anything is written.
+        if abs(value) >> (nbits - 1):
+            raise ValueError('{} is too large a value for a signed integer of {} bits'.format(value, nbits))
         self.write_bool(value < 0)
-        self.write_uint(abs(value), nbits - 1)
+        if nbits > 1:
+            self.write_uint(abs(value), nbits - 1)
         return value
 
     def write_bool(self, value):
